@@ -23,6 +23,7 @@ type Job struct {
 	Args    []string `json:"args"`
 	Race    bool     `json:"race"`
 	Timeout int      `json:"timeout_s"`
+	Bin     string   `json:"bin,omitempty"` // "" = instrumented harness; "vplain" = un-instrumented binary
 }
 
 // Result is what a worker reports back to the driver.
